@@ -551,6 +551,76 @@ Proof.
   destruct (getref_proven my evs x c Hg) as [[H _]|[_ H]]; [congruence|exact H].
 Qed.
 
+(* ------------------------------------------------------------------ pending lookups / crossed connections *)
+Notation tstep := (tstep cert tubid_of).
+Notation trun := (trun cert tubid_of).
+
+Definition tinv (my : id) (st : tstate cert) : Prop :=
+  table_ok my (t_tab cert st) /\
+  (forall n x c, In (n, x, Some c) (t_ans cert st) -> justified my (x, c)).
+
+Lemma fire_some k c w n x c' :
+  In (n, x, Some c') (fire cert k (Some c) w) -> x = k /\ c' = c.
+Proof.
+  unfold fire. intros H. apply in_map_iff in H. destruct H as ([x0 n0] & Heq & Hin).
+  apply filter_In in Hin. destruct Hin as [_ Hk]. cbn [fst snd] in *. apply list_eqb_eq in Hk.
+  inversion Heq; subst. auto.
+Qed.
+
+Lemma fire_none k w n x c' : In (n, x, Some c') (fire cert k None w) -> False.
+Proof.
+  unfold fire. intros H. apply in_map_iff in H. destruct H as ([x0 n0] & Heq & _). inversion Heq.
+Qed.
+
+Lemma t_attach_inv my st k c : tinv my st -> justified my (k, c) -> tinv my (t_attach cert st k c).
+Proof.
+  intros [[HF HN] Ha] Hj. unfold t_attach. destruct (tbl_mem cert k (t_tab cert st)) eqn:E; cbn [t_tab t_ans].
+  - split; [split; assumption|exact Ha].
+  - split.
+    + split; [constructor; assumption|]. cbn [map fst]. constructor; [apply tbl_mem_in; exact E|exact HN].
+    + intros n x c' Hin. apply in_app_or in Hin. destruct Hin as [Hin|Hin]; [|exact (Ha _ _ _ Hin)].
+      apply fire_some in Hin. destruct Hin; subst. exact Hj.
+Qed.
+
+Lemma tstep_inv my st e : tinv my st -> tinv my (tstep my st e).
+Proof.
+  intros Hinv. pose proof Hinv as [[HF HN] Ha].
+  destruct e as [x|r tgt p claimed arrives|x|k]; cbn [Identity.tstep].
+  - destruct (tbl_get cert x (t_tab cert st)) as [c|] eqn:EG.
+    + cbn [t_tab t_ans]. split; [split; assumption|].
+      intros n x0 c0 [Hin|Hin]; [|exact (Ha _ _ _ Hin)]. inversion Hin; subst.
+      apply tbl_get_in in EG. rewrite Forall_forall in HF. exact (HF _ EG).
+    + destruct (list_eqb x my) eqn:EM.
+      * apply list_eqb_eq in EM. subst x.
+        assert (Hj : justified my (my, {| conn_cert := None; conn_loop := true |})) by (left; cbn; auto).
+        destruct (t_attach_inv my st my _ Hinv Hj) as [Ht Ha'].
+        cbn [t_tab t_ans]. split; [exact Ht|].
+        intros n x0 c0 [Hin|Hin]; [|exact (Ha' _ _ _ Hin)]. inversion Hin; subst. exact Hj.
+      * cbn [t_tab t_ans]. split; [split; assumption|exact Ha].
+  - destruct (handle_hello r my tgt p claimed) as [w|t m] eqn:E; [exact Hinv|].
+    destruct (m || arrives); [|exact Hinv].
+    apply hello_key_proven in E. destruct E as (crt & Hl & Hh & _).
+    apply t_attach_inv; [exact Hinv|]. right. cbn [fst snd conn_loop conn_cert]. split; [reflexivity|]. exists crt. auto.
+  - destruct (tbl_mem cert x (t_tab cert st)); cbn [t_tab t_ans]; (split; [split; assumption|]); [exact Ha|].
+    intros n x0 c0 Hin. apply in_app_or in Hin. destruct Hin as [Hin|Hin]; [destruct (fire_none _ _ _ _ _ Hin)|exact (Ha _ _ _ Hin)].
+  - cbn [t_tab t_ans]. split; [apply tbl_remove_ok; split; assumption|exact Ha].
+Qed.
+
+(* several lookups pending, connections (outbound and inbound, honest and not) completing, failing and going away in any
+   order: a lookup for tub id X is only ever answered with a Broker whose transport's leaf certificate hashes to X (or
+   with the Tub's own loopback when X is its own id), and the table invariant holds throughout *)
+Theorem tub_answers_proven my evs :
+  table_ok my (t_tab cert (trun my evs)) /\
+  (forall n x c, In (n, x, Some c) (t_ans cert (trun my evs)) ->
+     (conn_loop cert c = true /\ x = my) \/ (conn_loop cert c = false /\ proven (conn_cert cert c) x)).
+Proof.
+  assert (G : forall st, tinv my st -> tinv my (fold_left (tstep my) evs st)).
+  { induction evs as [|e evs IH]; intros st Hst; cbn [fold_left]; [exact Hst|]. apply IH. apply tstep_inv. exact Hst. }
+  assert (I0 : tinv my (t_init cert)).
+  { split; [split; constructor|intros n x c []]. }
+  destruct (G _ I0) as [Ht Ha]. split; [exact Ht|]. intros n x c Hin. exact (Ha _ _ _ Hin).
+Qed.
+
 End IdentityProofs.
 
 (* ------------------------------------------------------------------ getReference: every request gets ITS answer *)
